@@ -335,9 +335,12 @@ pub fn isolated_main(reset_ev: &str, end_ev: &str, default_timeout_ms: u64, para
             }
             let text = std::fs::read_to_string(&tmp).unwrap_or_default();
             let _ = std::fs::remove_file(&tmp);
-            // a child that was killed for its time limit without having written a single record never reached
-            // the scenario (seen a few times in some thousand children): it is started once more
-            if how.as_deref() == Some("hang") && text.trim().is_empty() && attempt < 2 {
+            // a verdict "never came back" has to reproduce: in batches of some thousand children a handful were
+            // killed for their time limit although they had written nothing at all, or had already written their
+            // last record (not reproduced alone; the runtime is not involved in either case). A child that ran
+            // into its limit is started once more; a scenario that really hangs does so again.
+            if how.as_deref() == Some("hang") && attempt < 2 {
+                eprintln!("NOTE scenario {} ran into its time limit ({} record(s) written) and is run again", sc["id"], text.lines().count());
                 continue;
             }
             break (status, how, err, text);
